@@ -66,7 +66,7 @@ Inductive nbres :=
 | NBNoFunds.           (* the consumer cannot pay: the context is paused *)
 
 Inductive op :=
-| Call (id consumer timeout : Z) (repeated : bool) (freq total : Z) (rest : outcome)
+| Call (id consumer timeout : Z) (repeated : bool) (freq total nprov : Z) (rest : outcome)
 | CallM (id consumer module timeout : Z) (repeated : bool) (freq total thr nprov : Z) (rest : outcome)
 | MStart (id sender : Z) (rest : outcome)          (* oracle StartFeed / random's begin blocker *)
 | MPause (id sender : Z) (rest : outcome)          (* oracle PauseFeed *)
@@ -92,7 +92,7 @@ Definition del_exp (s : state) (id h : Z) : state :=
   mkS (height s) (ctxs s) (nq s) (deq (h, id) (xq s)) (nmark s) (del id (xmark s)) (ndone s) (xdone s ++ [((h, id), height s)]).
 
 (** MsgCallService.ValidateBasic (ValidateRequest) + Keeper.CreateRequestContext with state RUNNING *)
-Definition call (s : state) (id consumer timeout : Z) (repeated : bool) (freq total : Z) (rest : outcome)
+Definition call (s : state) (id consumer timeout : Z) (repeated : bool) (freq total nprov : Z) (rest : outcome)
   : state * outcome :=
   if (timeout <=? 0) || (max_timeout <? timeout) || (freq <? 0) then (s, Rej)      (* freq is a uint64 *)
   else if repeated && (((0 <? freq) && (freq <? timeout)) || (total <? -1) || (total =? 0)) then (s, Rej)
@@ -101,7 +101,7 @@ Definition call (s : state) (id consumer timeout : Z) (repeated : bool) (freq to
   | Ok =>
       let f := if repeated then (if freq =? 0 then timeout else freq) else 0 in
       let t := if repeated then total else 0 in
-      let c := mkC CRunning true 0 timeout repeated f t consumer 0 0 0 0 0 0 0 false in
+      let c := mkC CRunning true 0 timeout repeated f t consumer 0 0 0 nprov 0 0 0 false in
       (add_new (upd s (set id c (ctxs s))) id (height s), Ok)
   | r => (s, r)                                   (* definition, bindings' input schema, fee cap *)
   end.
@@ -230,8 +230,8 @@ Definition expire_one (s : state) (id : Z) : state :=
   let c := get_ctx s id in
   let c1 := mkC (c_state c) true (c_counter c) (c_timeout c) (c_repeated c) (c_freq c) (c_total c)
                 (c_consumer c) (c_reqs c) (c_resps c)
-                (c_module c) (c_nprov c) (c_thr c) (c_bthr c) (c_outs c) (c_badseed c) in
-                                                                  (* CompleteBatch unless completed already *)
+                (c_module c) (c_nprov c) (c_thr c) (c_bthr c) 0 false in
+                                        (* CompleteBatch unless completed already; CleanBatch drops the responses *)
   let s1 := del_exp s id h in
   match c_state c1 with
   | CCompleted => upd s1 (del id (ctxs s1))                       (* CompleteServiceContext *)
@@ -283,7 +283,7 @@ Definition end_block (s : state) (res : list (Z * nbres)) : state :=
 
 Definition step (s : state) (o : op) : state * outcome :=
   match o with
-  | Call id c t r f n rest => call s id c t r f n rest
+  | Call id c t r f n np rest => call s id c t r f n np rest
   | CallM id c m t r f n thr np rest => callm s id c m t r f n thr np rest
   | MStart id sd rest => start_k true s id sd rest
   | MPause id sd rest => pause_k true s id sd rest
